@@ -52,6 +52,9 @@ type Program struct {
 	Consts  []string            // extra top-level declarations (Value sources)
 	Decls   []Decl
 	Files   [][]int // decl indices per file (file 0 holds types and providers)
+	// ReplayTypes: emit types that carry the identity of the term that
+	// produced them (replay instrumentation only).
+	ReplayTypes bool
 }
 
 func (p *Program) allProvs() []Prov {
@@ -182,6 +185,10 @@ func (p *Program) Emit(bodyOf func(pr Prov) string, extraImports []string) map[s
 	}
 	sb.WriteString("\t\"github.com/mazrean/kessoku\"\n)\n\n")
 	for _, t := range p.Types {
+		if p.ReplayTypes {
+			fmt.Fprintf(&sb, "type %s struct{ id string }\n\nfunc (t *%s) VerifID() string {\n\tif t == nil {\n\t\treturn \"nil\"\n\t}\n\treturn t.id\n}\n", t, t)
+			continue
+		}
 		fmt.Fprintf(&sb, "type %s struct{ _ int }\n", t)
 	}
 	inames := make([]string, 0, len(p.Ifaces))
@@ -199,10 +206,16 @@ func (p *Program) Emit(bodyOf func(pr Prov) string, extraImports []string) map[s
 	sort.Strings(snames)
 	for _, n := range snames {
 		fmt.Fprintf(&sb, "type %s struct {\n", n)
+		if p.ReplayTypes {
+			sb.WriteString("\tid string\n")
+		}
 		for _, f := range p.Structs[n] {
 			fmt.Fprintf(&sb, "\t%s\n", f)
 		}
 		sb.WriteString("}\n")
+		if p.ReplayTypes {
+			fmt.Fprintf(&sb, "func (t *%s) VerifID() string {\n\tif t == nil {\n\t\treturn \"nil\"\n\t}\n\treturn t.id\n}\n", n)
+		}
 	}
 	for _, c := range p.Consts {
 		sb.WriteString(c + "\n")
